@@ -300,7 +300,7 @@ pub fn run(ctx: &Ctx, rep: &mut Report) {
     rep.note("feature mask: no block strings (C07 owns their defect). Every CLI run is a fresh process: std::collections::hash_map::RandomState draws new keys per process, so hash-map iteration orders vary between the runs compared.");
     let k_runs = if ctx.thorough { 8 } else { 5 };
     // ---- A
-    let n = ctx.budget(64, 2400);
+    let n = ctx.budget(480, 9_600);
     let mut st = RerunStats { runs: 0, multi_diag: 0, files_compared: 0 };
     for case in 0..n {
         let mut rng = ctx.rng("c17a", case);
@@ -324,7 +324,7 @@ pub fn run(ctx: &Ctx, rep: &mut Report) {
     rep.add("rerun_projects_with_several_diagnostics", st.multi_diag);
     rep.add("rerun_files_in_tree_compared_per_run", st.files_compared);
     // ---- B
-    let n = ctx.budget(64, 2400);
+    let n = ctx.budget(480, 9_600);
     let mut compared = 0u64;
     for case in 0..n {
         let mut rng = ctx.rng("c17b", case);
@@ -345,7 +345,7 @@ pub fn run(ctx: &Ctx, rep: &mut Report) {
     }
     rep.add("lib_vs_cli_files_compared", compared);
     // ---- C
-    let n = ctx.budget(48, 1800);
+    let n = ctx.budget(480, 9_600);
     let mut pst = (0u64, 0u64, 0u64);
     for case in 0..n {
         let mut rng = ctx.rng("c17c", case);
